@@ -263,7 +263,8 @@ fn parse_block(raw: &[u8], opts: &Opts, offset: u64) -> Result<(usize, Vec<u64>,
             }
         }
         for off in &offsets {
-            if !entries.is_empty() && !entries.iter().any(|e| e.start as u64 == *off) {
+            // entries are in increasing start order
+            if !entries.is_empty() && entries.binary_search_by_key(off, |e| e.start as u64).is_err() {
                 return Err(at("offset slot does not name an entry start"));
             }
         }
